@@ -169,7 +169,7 @@ pub struct WireScanner {
     pub desync: bool,
 }
 
-fn read_varint(buf: &[u8]) -> Result<Option<(u32, usize)>, ()> {
+pub fn read_varint(buf: &[u8]) -> Result<Option<(u32, usize)>, ()> {
     let mut value = 0u32;
     for i in 0..4 {
         let Some(b) = buf.get(i) else {
